@@ -131,6 +131,7 @@ fn one(v: &Value) -> Value {
     }
     "tree" => tree::observe(v),
     "rope" => rope::run(v),
+    "eqhash" => tree::eqhash(v),
     "threads" => threads::run(v),
     _ => json!({"error": format!("unknown family {}", fam)}),
   }
